@@ -81,6 +81,13 @@ CHECKS = {
    note="A 406 is accepted whenever the server declines (the property constrains the coding that is chosen). image/* (except svg) and video/* are sent unencoded by design and exempt from the identity check. Headers with two members for the same coding are not generated. Compressed request streams cut short by the client are observed (flate2 accepts them at finish) but not judged: the property speaks of complete bodies. spawn_blocking threads used by the codecs are real; only their results are observed.",
    technique="differential property testing: responses decoded by reference codec libraries through an independent HTTP parser; negotiation checked against an RFC predicate; generated Accept-Encoding grammar",
    design_ref="DESIGN.md §5 C13"),
+ "C11": dict(
+   engine="simnet",
+   category="exploration",
+   text="One service instance (one HttpRequestPool) - the real HttpService + h1 dispatcher over scripted connections with on_connect_ext connection data, running an App with nested dynamic scopes, named and multi-pattern resources, tail segments, a default service, Marker app_data at app / scope / nested-scope / resource level and a wrap_fn middleware - serves a generated history of 1-300 requests over 1-3 connections. Each request picks one of 14 paths (static, dynamic, percent-encoded incl. %2F, tail, multi-pattern, nested scope, unmatched, with query), a method and headers (Cookie, Host, ...), and behaviours: insert marker types into extensions, read cookies() / connection_info() (cached in extensions), clone the HttpRequest into a stash (keeps it out of the pool), release 1-200 stashed clones at once (beyond the pool capacity of 128). Handler and middleware serialise everything reachable from the request (method, URI, version, header multimap, match_info pairs, match_pattern, match_name, unprocessed path, extension markers at entry, conn_data, innermost app_data, peer address, cookie and connection-info results, the middleware's pre-routing view). Oracle: the dump of one request of the history equals the dump of the same request sent alone to a freshly built service with the same connection id. 8*10^3 (quick) to 1.6*10^5 (thorough) histories.",
+   note="Differential against the implementation itself on a fresh instance: a defect that shows identically on a fresh service is out of scope here (C09 owns routing correctness). One probe per history.",
+   technique="property-based testing over request histories (stateful generation) with a metamorphic oracle: history-run vs fresh-service run of the same request",
+   design_ref="DESIGN.md §5 C11"),
  "C01": dict(
    engine="simnet",
    category="exploration",
